@@ -60,6 +60,51 @@ class Odd:
         return 'Odd(%d)' % self.n
 
 
+class Card:
+    """user object with a field literally named `value` (what the proxy calls its own payload), and a __format__ that
+    differs from __str__"""
+    def __init__(self, value, suit):
+        self.value = value
+        self.suit = suit
+
+    def __eq__(self, other):
+        return isinstance(other, Card) and (self.value, self.suit) == (other.value, other.suit)
+
+    def __hash__(self):
+        return hash((self.value, self.suit))
+
+    def __lt__(self, other):
+        if isinstance(other, Card):
+            return self.value < other.value
+        return NotImplemented
+
+    def __add__(self, other):
+        if isinstance(other, int):
+            return Card(self.value + other, self.suit)
+        return NotImplemented
+
+    def __len__(self):
+        return 2
+
+    def __iter__(self):
+        return iter((self.value, self.suit))
+
+    def __getitem__(self, k):
+        return (self.value, self.suit)[k]
+
+    def __contains__(self, x):
+        return x in (self.value, self.suit)
+
+    def __str__(self):
+        return '%s of %s' % (self.value, self.suit)
+
+    def __repr__(self):
+        return 'Card(%r, %r)' % (self.value, self.suit)
+
+    def __format__(self, spec):
+        return 'card:' + str(self) if not spec else format(str(self), spec)
+
+
 class Plain:
     """user object without dunders"""
     def __repr__(self):
@@ -68,7 +113,7 @@ class Plain:
 
 PLAIN = Plain()
 VALUES = {'int': [3, 0, -2], 'float': [2.5, -1.5], 'bool': [True, False], 'str': ['ab', ''], 'list': [[1, 2], []], 'tuple': [(1, 2), ()],
-          'dict': [{'a': 1}], 'set': [{1, 2}], 'none': [None], 'complex': [1 + 2j], 'money': [Money(5)], 'plain': [PLAIN], 'nan': [float('nan')], 'odd': [Odd()]}
+          'dict': [{'a': 1}], 'set': [{1, 2}], 'none': [None], 'complex': [1 + 2j], 'money': [Money(5)], 'card': [Card(11, 'hearts')], 'plain': [PLAIN], 'nan': [float('nan')], 'odd': [Odd()]}
 BINOPS = {'add': operator.add, 'sub': operator.sub, 'mul': operator.mul, 'matmul': operator.matmul, 'truediv': operator.truediv,
           'floordiv': operator.floordiv, 'mod': operator.mod, 'divmod': divmod, 'pow': pow, 'lshift': operator.lshift,
           'rshift': operator.rshift, 'and': operator.and_, 'xor': operator.xor, 'or': operator.or_,
